@@ -67,6 +67,14 @@ def build_corpus(crate, meta, log):
             raise ToolError("cargo build failed without attributable diagnostics:\n" + err[-3000:])
         newfail = {}
         for f, line, msg, code in errs:
+            if f == meta.get("lib", {}).get("src"):
+                # a declaration in the #![no_std] library of the package
+                lc = next((c for c in meta["lib"]["cases"] if c["start"] < line <= c["end"]), None)
+                if lc is None:
+                    raise ToolError(f"compile error outside a case module: {f}:{line}: {msg}")
+                b = next(b for b in meta["bins"] if any(c["id"] == lc["id"] for c in b["cases"]))
+                newfail.setdefault(lc["id"], {"where": "decl", "msg": msg, "code": code, "bin": b["name"]}).update({"where": "decl"})
+                continue
             b = by_file.get(f)
             if b is None:
                 raise ToolError(f"compile error outside the corpus cases: {f}:{line}: {msg}")
@@ -90,6 +98,14 @@ def build_corpus(crate, meta, log):
                 for i in range(b["main_line"], len(lines)):
                     if lines[i].strip() == f"c{c['id']}::g::case,":
                         lines[i] = "    // removed"
+            open(path, "w").write("\n".join(lines))
+        libids = [c for c in meta.get("lib", {}).get("cases", []) if c["id"] in newfail]
+        if libids:
+            path = os.path.join(crate, meta["lib"]["src"])
+            lines = open(path).read().split("\n")
+            for c in libids:
+                for i in range(c["start"], c["end"]):
+                    lines[i] = "// removed: does not compile"
             open(path, "w").write("\n".join(lines))
         failed.update(newfail)
     raise ToolError("corpus build did not converge")
